@@ -376,3 +376,9 @@ package ledger
 //@     ensures schema != nil && chartAccepts(schema.Chart, address) ==> forall k string :: {has(a.DefaultMetadata, k)} has(a.DefaultMetadata, k) == (has(chartAccount(schema.Chart, address).Metadata, k) && chartAccount(schema.Chart, address).Metadata[k].Default != nil)
 //@     ensures schema != nil && chartAccepts(schema.Chart, address) ==> forall k string :: {a.DefaultMetadata[k]} has(a.DefaultMetadata, k) ==> a.DefaultMetadata[k] == deref(chartAccount(schema.Chart, address).Metadata[k].Default)
 //@   end
+
+// ---- log.go: a fresh log carries no id (the database assigns it on insert): C08 ---------------------------------
+//@ func NewLog(payload LogPayload) (r Log)
+//@   property C08 C07 C13 C29 C31
+//@   requires payload != nil
+//@   ensures r.ID == nil && r.Data == payload && r.IdempotencyKey == "" && r.SchemaVersion == ""
